@@ -1,10 +1,11 @@
 # C20 — policy-driven issuance is bounded: ecosystem mint cap and AMM reward allocations
 LEAN_MODULES = ["Sif.Props.C20"]
-EXTRACT = [{"group": "disp", "passes": ["dispconsts", "mintcallers", "disphooks"]}]
+EXTRACT = [{"group": "disp", "passes": ["dispconsts", "mintcallers", "disphooks", "accureset"]}]
 FAMILIES = [
     {"name": "mint", "family": "mint", "group": "disp", "driver": "drv_issue", "n_quick": 6000, "n_thorough": 60000, "seeds_thorough": 3},
     {"name": "dispmsgs", "family": "disp", "group": "disp", "driver": "drv_disp", "n_quick": 600, "n_thorough": 6000, "seeds_thorough": 2},
     {"name": "restart", "family": "restart", "group": "disp", "driver": "drv_issue", "n_quick": 400, "n_thorough": 4000, "seeds_thorough": 3},
+    {"name": "rwedits", "family": "rwedits", "group": "disp", "driver": "drv_issue", "n_quick": 3000, "n_thorough": 30000, "seeds_thorough": 4},
     {"name": "rewards", "family": "rewards", "group": "disp", "driver": "drv_issue", "n_quick": 6000, "n_thorough": 60000, "seeds_thorough": 4},
 ]
 RULE = ("mint: real dispensation BeginBlocker on the real keeper/bank, block histories with the counter started 0..6 blocks below the cap "
@@ -28,13 +29,13 @@ ASSUMPTIONS = [
     "starting counter <= cap for mint_counter (above the cap nothing is minted: mint_nothing_after_cap)",
     "ecosystem pool address != dispensation module address (mint_held)",
     "reward periods inside the envelope of DESIGN section 5 (start <= end < 2^62, mod < 2^62, allocation < 2^128 — enforced by ValidateBasic after F5/F13) "
-    "and pairwise non-overlapping, fixed while they run (no AddRewardPeriod replacing a running period)",
+    "and either pairwise non-overlapping and fixed (rewards_per_block/_per_period), or arbitrarily edited between blocks with clean switches: a period takes over only at its own start block (rewards_*_edits)",
     "per-block theorem: the accumulator invariant holds at the first block of the history (e.g. empty accumulator, or the history contains the period's first block)",
     "cosmos x/mint (SDK inflation module, also wired into the app) is outside /repo/x and /repo/app and not covered by cap_const; the envelope excludes a token registry that aliases a foreign voucher to rowan (ibctransfer helper)",
 ]
 UNPROVED = [
     "'every rewarded coin ends up in a pool or a provider's account': not proved here (needs the clp pool/provider model: C01/C18); the model proves net created <= block distribution and the harness observes only the net supply change.",
-    "overlapping reward periods, or a period list replaced while a period runs: the repaired code still carries the accumulator into the other period when the switch does not happen at a RewardPeriodStartBlock (e.g. A=[1..10] mod 4 listed before B=[5..20] mod 1: block 11 pays B's share plus two shares of A). Excluded by the hypothesis periodsDisjoint; not generated; reported as a residual observation, not repaired (a complete repair would store the period id with the accumulator).",
+    "non-clean period switches: a period that becomes current in mid-flight (not at its RewardPeriodStartBlock) — an overlapping period listed AFTER the running one taking over when that one ends, or an edit that changes the running period's own end/allocation/mod — still receives the accumulator of its predecessor on the repaired code (witness overlap_residual: A=[1..10] mod 4 listed before B=[5..20] mod 1, block 11 pays B's share plus two shares of A). Excluded by the hypothesis cleanSwitches (edit histories) / periodsDisjoint (fixed schedules); not generated; residual observation, not repaired (a complete repair would store the period id with the accumulator). Edits and overlaps in which every period takes over at its own start block ARE covered: rewards_per_block_edits, rewards_per_period_edits, family rwedits.",
     "cap_const is a syntactic call-site fact (go/ast): an indirect mint through a new wrapper defined outside x/ and app/, or through reflection, is not seen. The dynamic side (messages_create_nothing + supply check on every dispensation message) covers the dispensation messages only; admin messages of other modules are C08/C10.",
     "restart: proved as 'the step functions are functions of the stored state' (mint_restart, rewards_restart) and exercised on the real app with re-opened DB; IAVL/commit durability itself is trusted.",
     "no-panic along whole reward histories is proved per block (rewards_step_no_panic, accumulator < 2^255), not as a history theorem.",
@@ -45,7 +46,9 @@ MANIFEST = {
             "increase = supply increase (also when the send to the ecosystem pool fails), minted coins held by pool or module account; "
             "(b) AMM depth rewards, model of the repaired EndBlocker — per block (nothing off distribution blocks, <= floor(alloc/len) in a "
             "period's first block, <= mod*floor(alloc/len) later), per period (<= allocation), cumulative (<= sum of per-block entitlements), for "
-            "all schedules of non-overlapping periods in the envelope, all pool splits/transfer failures/burns; a decide'd witness that the "
+            "all schedules of non-overlapping periods in the envelope, all pool splits/transfer failures/burns, and — with the accumulator kept in the "
+            "model state across AddRewardPeriod edits — for all sequences of (edit | block) steps with clean switches (rewards_per_block_edits, "
+            "rewards_per_period_edits); a decide'd witness that the "
             "pinned tree violates the per-block and per-period clauses (F10); (c) regenerated facts closed by decide: every MintCoins / "
             "SetMintController / AddMintAmount / DistributeDepthRewards call site, every KVStore write of x/dispensation, every reference to "
             "MintControllerPrefix, the cap literal = 350,000,000 rowan, the dispensation module registered exactly once among the begin blockers (F22); "
